@@ -260,6 +260,23 @@ def r2(ctx):
                 yield VIOL("C16-R2", "parse/frac-absent", "without a fraction the nanosecond field is %s, not 0: the parsed instant is off" % nz, where=b.span_of_block(bi))
             else:
                 yield PASS("C16-R2", "parse/frac-absent", "no fraction => 0 ns (constants reaching the nanosecond argument: %s)" % sorted(set(direct)), [])
+    # which strings are refused is decided by the pattern and by chrono's checked constructors only: no condition on the way
+    # to an Err looks at the raw input except through the capture groups (a length limit, a prefix test, a fast path with
+    # its own idea of well-formed refuses timestamps the pattern accepts)
+    raw_conds = []
+    for eb, i_, s_ in result_aggs(b, "Err"):
+        for a_, sx_, c_, tr_ in guard_conditions(b, eb):
+            ops_ = list(c_["term"]["args"]) if c_["kind"] == "call" else [c_["l"], c_["r"]] if c_["kind"] == "binop" else [{"copy": {"local": c_["local"], "proj": []}}] if c_["kind"] == "local" else [{"copy": c_["place"]}] if c_["kind"] == "place" else []
+            for o_ in ops_:
+                if op_const(o_) is not None:
+                    continue
+                sl_ = b.slice_op(o_, int_barrier=False)
+                if 1 in sl_.params and not sl_.has_call(r"regex::Regex::(captures|captures_at|is_match|find)$"):
+                    raw_conds.append((a_, c_.get("callee", c_.get("op", "?")).split("::")[-1]))
+    if raw_conds:
+        yield VIOL("C16-R2", "parse/raw-input-condition", "a refusal depends on the raw input outside the pattern (%s): a string the pattern accepts can be rejected" % sorted({w for _, w in raw_conds}), where=b.span_of_block(raw_conds[0][0]))
+    else:
+        yield PASS("C16-R2", "parse/refusals-by-pattern", "every Err is decided by the pattern match or a checked constructor", [])
     # the regex used is ISO_8601_REGEX and the whole input is matched
     cap = one(b.calls(r"regex::Regex::(captures|captures_at)$"), "Regex::captures")
     rs = b.slice_op(cap[1]["args"][0])
